@@ -308,6 +308,8 @@ class ModelsClient:
             st = {"n": n, "npt": npt, "real": pickle.dumps(models), "ref": ref, "hist": [],
                   "kappa": kappa_of(it.xpt), "depth": 0, "trunc": False}
             viol = self.oracle(st, models, {"op": ("init",), "ill": False, "pre": None})
+            if getattr(self.oracle, "keeps_object", False):
+                st["real"] = pickle.dumps(models)
             if viol:
                 st["init_viol"] = viol
             out.append((("init", n, npt), st))
@@ -393,6 +395,10 @@ class ModelsClient:
                 continue
             new, models, info = res
             viol = self.oracle(new, models, info)
+            if getattr(self.oracle, "keeps_object", False):
+                # the oracle itself calls methods of the object (e.g. determinants): carry the object on as it is
+                # after those calls, so that sequences such as determinants -> shift -> determinants are explored
+                new["real"] = pickle.dumps(models)
             key = (st["n"], st["npt"], new["ref"].key())
             out.append((op, key, new, viol))
         return out
@@ -442,6 +448,10 @@ def replay_history(n, npt, hist, oracle):
             return viol
         st, models, info = res
         viol = oracle(st, models, info)
+        if getattr(oracle, "keeps_object", False):
+            st["real"] = pickle.dumps(models)
+        if viol:
+            return viol
     return viol
 
 
